@@ -91,8 +91,10 @@ Definition fmt_year (y : Z) : bytes :=
   if (0 <=? y) && (y <=? 9999) then digits_n 4 y
   else (if y <? 0 then 45%N else 43%N) :: (if Z.abs y <? 10000 then digits_n 4 (Z.abs y) else dec (Z.abs y)).
 
+(* chrono OffsetFormat (precision Minutes): the seconds of the offset are ROUNDED to the nearest
+   minute (half up on the absolute value); the sign is that of the offset itself ("-0000" for -29 s) *)
 Definition fmt_off (colon : bool) (off : Z) : bytes :=
-  let a := Z.abs off / 60 in
+  let a := (Z.abs off + 30) / 60 in
   (if off <? 0 then 45%N else 43%N) :: digits_n 2 (a / 60) ++ (if colon then [58%N] else []) ++ digits_n 2 (a mod 60).
 
 Definition fmt_item (t off : Z) (c : civil) (it : fitem) : bytes :=
